@@ -228,17 +228,22 @@ def tr_refine(tree):
     if len(body) < 3:
         raise TranslateError("refine: body too short")
     first, last = body[0], body[-1]
-    if ast.unparse(first) != "smtlib = query.smtlib":
-        raise TranslateError(f"refine: expected `smtlib = query.smtlib` first, got {ast.unparse(first)!r}")
-    if ast.unparse(last) != "return SMTQuery(smtlib, query.assertions)":
-        raise TranslateError(f"refine: expected `return SMTQuery(smtlib, query.assertions)` last, got {ast.unparse(last)!r}")
+    ok = (
+        isinstance(first, ast.Assign) and len(first.targets) == 1 and isinstance(first.targets[0], ast.Name)
+        and ast.unparse(first.value) == "query.smtlib"
+    )
+    if not ok:
+        raise TranslateError(f"refine: expected `<var> = query.smtlib` first, got {ast.unparse(first)!r}")
+    var = first.targets[0].id
+    if ast.unparse(last) != f"return SMTQuery({var}, query.assertions)":
+        raise TranslateError(f"refine: expected `return SMTQuery({var}, query.assertions)` last, got {ast.unparse(last)!r}")
     rules = []
     for st in body[1:-1]:
         ok = (
             isinstance(st, ast.Assign) and len(st.targets) == 1 and isinstance(st.targets[0], ast.Name)
-            and st.targets[0].id == "smtlib" and isinstance(st.value, ast.Call)
+            and st.targets[0].id == var and isinstance(st.value, ast.Call)
             and ast.unparse(st.value.func) == "re.sub" and len(st.value.args) == 3 and not st.value.keywords
-            and isinstance(st.value.args[2], ast.Name) and st.value.args[2].id == "smtlib"
+            and isinstance(st.value.args[2], ast.Name) and st.value.args[2].id == var
         )
         if not ok:
             raise TranslateError(f"refine: unexpected statement {ast.unparse(st)[:80]!r} at line {st.lineno}")
@@ -301,8 +306,9 @@ def tr_dump(tree):
     st = target[0]
     # named assertions: named_assertions = "".join([f"..." for assert_id in query.assertions])
     assigns = [s for s in st.body if isinstance(s, ast.Assign)]
-    if len(assigns) != 1 or ast.unparse(assigns[0].targets[0]) != "named_assertions":
-        raise TranslateError("dump: expected a single assignment to named_assertions")
+    if len(assigns) != 1 or len(assigns[0].targets) != 1 or not isinstance(assigns[0].targets[0], ast.Name):
+        raise TranslateError("dump: expected a single assignment (the named assertions) in the cache_solver branch")
+    named_var = assigns[0].targets[0].id
     v = assigns[0].value
     ok = (
         isinstance(v, ast.Call) and isinstance(v.func, ast.Attribute) and v.func.attr == "join"
@@ -318,7 +324,7 @@ def tr_dump(tree):
     others = [s for s in st.body if s is not assigns[0] and not (isinstance(s, ast.Expr) and "write_text" in ast.unparse(s))]
     if others:
         raise TranslateError(f"dump: unexpected statement in the cache_solver branch: {ast.unparse(others[0])[:60]!r}")
-    names = {"query.smtlib": "smtlib", "named_assertions": "named"}
+    names = {"query.smtlib": "smtlib", named_var: "named"}
     cached = joined_pieces(find_write_text(st.body, "cache_solver"), "dump (cached)", names)
     if len(st.orelse) != 1:
         raise TranslateError("dump: unexpected statements in the plain branch")
